@@ -117,6 +117,12 @@ class EOFRotator(EOF):
         return self
 
     def _fit_algorithm(self, model) -> Self:
+        n_modes_model = model.data["components"].sizes["mode"]
+        if self._params["n_modes"] > n_modes_model:
+            raise ValueError(
+                f"n_modes must be less than or equal to the number of modes of the model ({n_modes_model})."
+            )
+
         self.preprocessor = model.preprocessor
         self.sample_name = model.sample_name
         self.feature_name = model.feature_name
